@@ -105,13 +105,27 @@ for pid in ids:
             "nobody could observe is useless here - but re-read the statement sentence by sentence and make sure none of them becomes false; "
             "when in doubt whether the statement pins something, do not touch it. Do not change documented signatures, and do not make "
             "anything slower by more than a small factor.\n\n"
-            "Earlier changes made for this property (of the breaking kind, for your information on which code is involved):\n")
+            "This is a SECOND benign round: the property-preserving changes listed first below were already made by an earlier adversary "
+            "- do NOT repeat them or close variants; pick OTHER functions / mechanisms of the statement, and be bolder where the statement "
+            "allows it: vectorised (numpy) re-implementations whose results differ by round-off or by the order / container / integer type "
+            "of the output, correctly invalidated caches that make second calls return the SAME object as the first (or deliberately fresh "
+            "objects where the same one came back), different but valid element numberings and starting points, valid outputs chosen by "
+            "another rule when several are allowed, additional attributes left on the mesh, stricter or more lenient handling of inputs "
+            "OUTSIDE the stated domain (more informative exceptions, accepting what was rejected only where the statement does not say it "
+            "is rejected), different results for degenerate inputs the statement excludes.\n\n"
+            "Benign changes already made (do not repeat), then breaking changes made earlier (for your information on which code is "
+            "involved):\n")
         demo = ("a small standalone program that exercises the changed behaviour, CHECKS THE PROPERTY's relevant sentences on the answers it "
                 "gets (so it exits 0 and prints OK on BOTH the unchanged and the changed library) and prints one line `DIFF: ...` describing "
                 "an observable difference when run on the changed library (it may detect the changed library by the answer itself)")
         metakeys = ('"property": "%s", "summary" (one sentence: what was changed), "why_still_true" (why every sentence of the statement still '
                     'holds), "observable_difference" (what a caller can see), "files" (list), "tests_passed" (number)' % pid)
     lst = "".join("  - " + s[:260] + "\n" for s in earlier(pid))
+    if mode == "benign":
+        ben = []
+        for m in sorted(glob.glob(os.path.join(ROOT, "seeded_benign", pid + "-b-*", "meta.json"))):
+            ben.append(json.load(open(m)).get("summary") or "")
+        lst = "".join("  - (benign, done) " + s[:300] + "\n" for s in ben) + lst
     how = (
         f"Also do NOT simply revert one of the recent commits whose message starts with \"fix:\" in `git log`.\n\nHow to work:\n"
         f"- Read the relevant source under {wt}/mouette and the tests under {wt}/tests.\n"
